@@ -7,34 +7,56 @@ import (
 
 var encodeIndent = 0
 
+// maxBERDepth bounds the nesting of constructed encodings accepted by ber2der,
+// so that the recursion of readObject and EncodeTo is bounded by a constant and
+// not by the attacker-controlled input.
+const maxBERDepth = 1000
+
 type asn1Object interface {
 	EncodeTo(writer *bytes.Buffer) error
+	// encodedLen is the number of bytes EncodeTo writes.
+	encodedLen() int
 }
 
 type asn1Structured struct {
-	tagBytes []byte
-	content  []asn1Object
+	tagBytes   []byte
+	content    []asn1Object
+	contentLen int // DER length of the content, computed once when the object is built
 }
 
 func (s asn1Structured) EncodeTo(out *bytes.Buffer) error {
 	//fmt.Printf("%s--> tag: % X\n", strings.Repeat("| ", encodeIndent), s.tagBytes)
-	inner := new(bytes.Buffer)
+	out.Write(s.tagBytes)
+	encodeLength(out, s.contentLen)
 	for _, obj := range s.content {
-		err := obj.EncodeTo(inner)
+		err := obj.EncodeTo(out)
 		if err != nil {
 			return err
 		}
 	}
-	out.Write(s.tagBytes)
-	encodeLength(out, inner.Len())
-	out.Write(inner.Bytes())
 	return nil
+}
+
+func (s asn1Structured) encodedLen() int {
+	return len(s.tagBytes) + derLengthLen(s.contentLen) + s.contentLen
+}
+
+// derLengthLen is the number of bytes encodeLength writes for a length.
+func derLengthLen(length int) int {
+	if length >= 128 {
+		return 1 + lengthLength(length)
+	}
+	return 1
 }
 
 type asn1Primitive struct {
 	tagBytes []byte
 	length   int
 	content  []byte
+}
+
+func (p asn1Primitive) encodedLen() int {
+	return len(p.tagBytes) + derLengthLen(p.length) + len(p.content)
 }
 
 func (p asn1Primitive) EncodeTo(out *bytes.Buffer) error {
@@ -59,7 +81,7 @@ func ber2der(ber []byte) ([]byte, error) {
 	//fmt.Printf("--> ber2der: Transcoding %d bytes\n", len(ber))
 	out := new(bytes.Buffer)
 
-	obj, _, err := readObject(ber, 0)
+	obj, _, err := readObject(ber, 0, 0)
 	if err != nil {
 		return nil, err
 	}
@@ -130,8 +152,11 @@ func encodeLength(out *bytes.Buffer, length int) (err error) {
 	return
 }
 
-func readObject(ber []byte, offset int) (asn1Object, int, error) {
+func readObject(ber []byte, offset int, depth int) (asn1Object, int, error) {
 	//fmt.Printf("\n====> Starting readObject at offset: %d\n\n", offset)
+	if depth > maxBERDepth {
+		return nil, 0, errors.New("ber2der: BER nesting is too deep")
+	}
 	tagStart := offset
 	if offset < 0 || offset >= len(ber) {
 		return nil, 0, errors.New("ber2der: input is truncated")
@@ -215,14 +240,16 @@ func readObject(ber []byte, offset int) (asn1Object, int, error) {
 		}
 	} else {
 		var subObjects []asn1Object
+		contentLen := 0
 		for (offset < contentEnd) || indefinite {
 			var subObj asn1Object
 			var err error
-			subObj, offset, err = readObject(ber, offset)
+			subObj, offset, err = readObject(ber, offset, depth+1)
 			if err != nil {
 				return nil, 0, err
 			}
 			subObjects = append(subObjects, subObj)
+			contentLen += subObj.encodedLen()
 
 			if indefinite {
 				terminated, err := isIndefiniteTermination(ber, offset)
@@ -236,8 +263,9 @@ func readObject(ber []byte, offset int) (asn1Object, int, error) {
 			}
 		}
 		obj = asn1Structured{
-			tagBytes: ber[tagStart:tagEnd],
-			content:  subObjects,
+			tagBytes:   ber[tagStart:tagEnd],
+			content:    subObjects,
+			contentLen: contentLen,
 		}
 	}
 
